@@ -67,7 +67,7 @@ func vTunnel(sock *vSock, tcp bool) *Tunnel {
 	}
 }
 
-var c04Msgs = [4]cemi.Message{&cemi.LDataInd{}, &cemi.LDataInd{}, &cemi.LDataInd{}, &cemi.LDataInd{}}
+var c04Msgs = [8]cemi.Message{&cemi.LDataInd{}, &cemi.LDataInd{}, &cemi.LDataInd{}, &cemi.LDataInd{}, &cemi.LDataInd{}, &cemi.LDataInd{}, &cemi.LDataInd{}, &cemi.LDataInd{}}
 
 // c09Gateway answers connect requests with the given channel, heartbeats with OK and (optionally)
 // tunnelling requests with an acknowledgement.
